@@ -114,6 +114,10 @@ def gen_ovf(rng, doctype: str = "", lead: str = ""):
         if rng.random() < 0.8:
             # ids are plain strings; tools number clones "vmdisk#2", and nothing keeps "?" or ";" out of them either
             did = rng.choice(["vmdisk", "ovfdisk", "disk", "d", "o", "v", "f"]) + "".join(rng.choice("0123456789abov:" if rng.random() < 0.3 else ("0123456789abov#?;" if rng.random() < 0.3 else "0123456789abov")) for _ in range(rng.randrange(0, 5)))
+            others = [f_ for f_ in files if f_ != fid]
+            if others and rng.random() < 0.2:
+                # disk ids and file ids are separate name spaces: a disk may well be called what another file is called
+                did = rng.choice(others)
             if did not in disks:
                 disks[did] = fid
     items = []
